@@ -14,6 +14,7 @@ from .. import common
 from .. import counterfactual
 from .. import gen
 from .. import inproc
+from .. import oracles
 from .. import program
 
 PROP = "C01"
@@ -111,50 +112,7 @@ def run_shard(args):
 
 
 def run_one(files, order, sites, style):
-    """create run + plain re-execution sharing one storage directory."""
-    name = "test_a.py"
-    store = inproc.new_dir("store")
-    try:
-        res = inproc.run(files, ("create",), storage_dir=store)
-        if res.exec_exc:
-            return "skip", {"exec_exc": res.exec_exc}, res
-        if res.crashed():
-            return "crashed", {"collect": res.collect_exc, "apply": res.apply_exc}, res
-        new = res.files_after[name].decode("utf-8", "replace")
-        try:
-            args, _ = program.outer_snapshot_args(new)
-        except SyntaxError as e:
-            return "violation", {"kind": "unparsable", "error": str(e), "new": new}, res
-        if len(args) != len(order):
-            return "violation", {"kind": "site-count-changed", "new": new}, res
-        if style == "rec":
-            reached = {e[0] for e in res.logs.get(name, [])}
-        else:
-            reached = set(order)
-        missing = [sid for sid, a in zip(order, args) if a is None and sid in reached]
-        if missing:
-            return "violation", {"kind": "not-created", "sites": missing, "new": new}, res
-        # persist what a real session persists before the references are written
-        for f in list(store.glob("*-new.*")):
-            f.rename(f.with_name(f.name.replace("-new.", ".")))
-        logs, test_exc, exec_exc, _ = inproc.plain_run({name: new}, storage_from=store)
-        if exec_exc:
-            return "violation", {"kind": "rewritten-module-fails", "error": exec_exc, "new": new}, res
-        if style == "rec":
-            ev = logs.get(name, [])
-            bad = [e for e in ev if not (e[1] == "ok" and e[3] is True)]
-            if bad:
-                return "violation", {"kind": "comparison-not-true-after-create", "events": bad[:6], "new": new}, res
-            if not ev:
-                return "skip", {"exec_exc": "no events"}, res
-            return "ok", {"new": new, "events": len(ev)}, res
-        if test_exc:
-            return "violation", {"kind": "test-fails-after-create", "errors": test_exc[:4], "new": new}, res
-        return "ok", {"new": new, "events": len(order)}, res
-    finally:
-        import shutil
-
-        shutil.rmtree(store, ignore_errors=True)
+    return oracles.roundtrip(files, ("create",), style)
 
 
 def classify(files, order, sites, style):
